@@ -5,7 +5,7 @@ from __future__ import annotations
 
 import numpy as np
 
-from vmon.core import TAU_LP, TAU_SOCP_ABS, TAU_SOCP_REL, case_hash
+from vmon.core import TAU_LP, TAU_SCS_ABS, TAU_SCS_REL, TAU_SOCP_ABS, TAU_SOCP_REL, case_hash
 from vmon.oracles import geometry as G
 from vmon.runs import ACQ_LOG, OPT_LOG, VARIANTS, case_public
 
@@ -23,6 +23,9 @@ def _mag(Ri, Rj, slack):
     return float(max(vals))
 
 
+LOOSE = [False]  # set per step: a natural SolverError (SCS fallback) happened somewhere in this step
+
+
 def dom3(W, Ri, Rj, slack):
     """is Ri dominated by Rj (+slack)?  returns +1 / -1 / 0 (indeterminate)"""
     mag = _mag(Ri, Rj, slack)
@@ -32,6 +35,8 @@ def dom3(W, Ri, Rj, slack):
     else:
         m, _ = G.ell_dominated_margin(W, Ri[1], Ri[2], Ri[3], Rj[1], Rj[2], Rj[3], slack)
         tau = TAU_SOCP_ABS + TAU_SOCP_REL * mag
+        if LOOSE[0]:
+            tau = max(tau, TAU_SCS_ABS + TAU_SCS_REL * mag)
     return (1 if m > tau else -1 if m < -tau else 0), m
 
 
@@ -44,6 +49,8 @@ def cov3(W, Ri, Rj, slack):
     else:
         lo, hi = G.ell_covered_margin(W, Ri[1], Ri[2], Ri[3], Rj[1], Rj[2], Rj[3], slack)
         tau = TAU_SOCP_ABS + TAU_SOCP_REL * mag
+    if LOOSE[0]:
+        tau = max(tau, TAU_SCS_ABS + TAU_SCS_REL * mag)
     return (1 if lo > tau else -1 if hi < -tau else 0), 0.5 * (lo + hi)
 
 
@@ -67,7 +74,17 @@ def phase(step, *names):
 # ---------------------------------------------------------------------------------------
 # C02: elimination exactly on a certificate
 # ---------------------------------------------------------------------------------------
-def check_discard(mon, tr, step, prop="C02"):
+def check_discard(mon, tr, step, *a, **k):
+    LOOSE[0] = step.get("solver_errors", 0) > 0
+    if LOOSE[0]:
+        mon.count("scs_fallback_rounds_judged_with_scs_band")
+    try:
+        return _check_discard(mon, tr, step, *a, **k)
+    finally:
+        LOOSE[0] = False
+
+
+def _check_discard(mon, tr, step, prop="C02"):
     case = tr.case
     fam = VARIANTS[case["variant"]]["family"] if case["variant"] in VARIANTS else case.get("family")
     ph = phase(step, "discarding")
@@ -142,7 +159,17 @@ def _auer_cb(R, i):
     return (R[i][1] + R[i][2]) / 2, (R[i][2] - R[i][1]) / 2
 
 
-def check_admit(mon, tr, step):
+def check_admit(mon, tr, step, *a, **k):
+    LOOSE[0] = step.get("solver_errors", 0) > 0
+    if LOOSE[0]:
+        mon.count("scs_fallback_rounds_judged_with_scs_band")
+    try:
+        return _check_admit(mon, tr, step, *a, **k)
+    finally:
+        LOOSE[0] = False
+
+
+def _check_admit(mon, tr, step):
     case = tr.case
     fam = VARIANTS[case["variant"]]["family"] if case["variant"] in VARIANTS else case.get("family")
     ph = phase(step, "pareto_updating", "epsiloncovering")
@@ -162,12 +189,16 @@ def check_admit(mon, tr, step):
     if S_post != S_mid - admitted:
         mon.violation("admit:S-inconsistent", f"{case['variant']}: S after admission {S_post} != {S_mid} - {admitted}", pub)
     if case["variant"] == "VOGP_AD":
-        depths = step.get("depths_at_cover")
-        gate_open = step.get("gate_open")
-        if not gate_open:
+        # the gate is recomputed by the monitor: it opens (and latches) in the first round in which every
+        # candidate is at the maximum depth — the algorithm's own flag is not trusted
+        latch = getattr(tr, "_gate_latch", False) or bool(step.get("all_S_at_max_depth", False))
+        tr._gate_latch = latch
+        if not latch:
+            mon.count("ad_gate_closed_rounds")
             if admitted:
-                mon.violation("admit:before-max-depth", f"VOGP_AD admitted {admitted} while the depth gate was closed", pub)
+                mon.violation("admit:before-max-depth", f"VOGP_AD round {step['round_pre']}: admitted {sorted(admitted)} while some candidate was below the maximum depth", pub)
             return
+        mon.count("ad_gate_open_rounds")
     if fam == "auer":
         eps = case["eps"]
         tri = {}
@@ -236,7 +267,17 @@ def _judge_admit(mon, case, step, i, expected, observed, fam, R, h):
         mon.count("admit_indeterminate")
 
 
-def check_useful(mon, tr, step):
+def check_useful(mon, tr, step, *a, **k):
+    LOOSE[0] = step.get("solver_errors", 0) > 0
+    if LOOSE[0]:
+        mon.count("scs_fallback_rounds_judged_with_scs_band")
+    try:
+        return _check_useful(mon, tr, step, *a, **k)
+    finally:
+        LOOSE[0] = False
+
+
+def _check_useful(mon, tr, step):
     case = tr.case
     ph = phase(step, "useful_updating")
     dph = phase(step, "discarding")
